@@ -24,6 +24,8 @@ ALPHABETS = {
     "M": ([""], [""], ["", "a", "[a]", "[a]: /u", "[a]:", "/u", "'t'", "[a]: /u 't'", "[a]: /u 't", "===", "---", "[b]: /v x", "[a][b]", "[A]: /w"]),
     # list markers followed by 1-3 blanks (items of one list with different content offsets), containers starting on the marker line
     "G": ([""], ["- ", "-  ", "-   ", "1. ", "1.  ", "10. ", " - "], ["a", "> b", "- c", "", "# h"]),
+    # HTML blocks of kinds 1 (script / style), 3 (processing instruction), 4 (declaration), 5 (CDATA): start lines, end lines, both on one line
+    "S": (["", "    "], ["", "> ", "- "], ["", "a", "<script>", "</script>", "<script>x</script> y", "<?a", "?>", "<?a?> b", "<!X", "y>", "<![CDATA[", "]]>", "<style", "<STYLE>"]),
     "T": ([""], ["> >\t", ">\t> ", "> > ", "", "> >", "\t> ", "- \t> ", "> ", "-\t", ">\t"], ["a", ""]),
 }
 
@@ -46,6 +48,10 @@ POSITIONAL = {
     # three nested lists, then a marker of another kind at the column of the middle list, then an indented leaf
     "Y": [["- a", "1. a"], ["  1. b", "   1. b", "  - b", "   - b"], ["     - c", "      1. c", "    - c"], ["    + z", "     - z", "   + z", "    1) z"],
           ["    # y", "     # y", "    <div>", "    y", ""]],
+    # an HTML block of kind 1 / 3 / 4 / 5 opened at top level or inside a container, a line (blank, text, lazy, only a quote marker, another
+    # start), an end line (matching or not, inside or outside the container), and what follows
+    "Z": [["<script>", "<?", "<!X", "<![CDATA[", "> <script>", "- <?", "> <!X", "- <![CDATA[", "a"], ["", "b", ">", "> b", "  b", "<script>", "<?"],
+          ["", "</script>", "?>", "]]>", "c>", "> ?>", "  </script>", "  ]]>", "> ]]> d"], ["", "e", "> e", "  e", "- e"]],
     # containers three deep opened on one line, continued, then a blank line of the outer container and a line that belongs only to it
     "P": [["> 1. > q", "> - > q", "- 1. > q", "> > 1. q", "1. > - q"], [">    > 1. i", ">   > - i", ">    > m", ">    > > d", "  1. > m", "     > - i"],
           [">", "", "> >"], ["> t", "t", ">    t", "> 2. n", "> - n", "  t"]],
@@ -143,7 +149,7 @@ def write():
                                  "MC_MdBlocksQ_4v": (4, 6, True), "MC_MdBlocksD_2": (2, 10, False), "MC_MdBlocksD_3v": (3, 10, True),
                                  "MC_MdBlocksO_3": (3, 8, False), "MC_MdBlocksT_3": (3, 10, False), "MC_MdBlocksT_2": (2, 10, False),
                                  "MC_MdBlocksO_2": (2, 8, False), "MC_MdBlocksR_3": (3, 8, False), "MC_MdBlocksH_2": (2, 8, False), "MC_MdBlocksH_3v": (3, 8, True),
-                                 "MC_MdBlocksG_2": (2, 8, False), "MC_MdBlocksG_3": (3, 8, False), "MC_MdBlocksL_2": (2, 8, False), "MC_MdBlocksL_3": (3, 8, False), "MC_MdBlocksM_3": (3, 8, False), "MC_MdBlocksM_4": (4, 8, False)}.items():
+                                 "MC_MdBlocksS_2": (2, 8, False), "MC_MdBlocksS_3v": (3, 8, True), "MC_MdBlocksG_2": (2, 8, False), "MC_MdBlocksG_3": (3, 8, False), "MC_MdBlocksL_2": (2, 8, False), "MC_MdBlocksL_3": (3, 8, False), "MC_MdBlocksM_3": (3, 8, False), "MC_MdBlocksM_4": (4, 8, False)}.items():
         with open(os.path.join(d, name + ".cfg"), "w", encoding="utf-8") as f:
             f.write(CFG % (ml, md, "VIEW View\n" if view else ""))
 
